@@ -125,6 +125,8 @@ pub fn cond<P: Problem>(n: u32) -> Box<dyn Condition<P>> { LessThanN::iterations
 pub fn real_templates(n: u32) -> Vec<(&'static str, Configuration<Sphere>)> {
     vec![
             ("real_ga", ga::real_ga(ga::RealProblemParameters { population_size: 8, tournament_size: 3, pm: 0.5, deviation: 0.2, pc: 0.8 }, cond(n)).unwrap()),
+            // an odd population with a tournament over the whole population (an unpaired last parent, selection at its size limit)
+            ("real_ga[odd]", ga::real_ga(ga::RealProblemParameters { population_size: 7, tournament_size: 7, pm: 0.5, deviation: 0.2, pc: 0.8 }, cond(n)).unwrap()),
             ("real_pso", pso::real_pso(pso::RealProblemParameters { num_particles: 6, start_weight: 0.9, end_weight: 0.4, c_one: 1.0, c_two: 1.5, v_max: 1.0 }, cond(n)).unwrap()),
             ("real_sa", sa::real_sa(sa::RealProblemParameters { t_0: 5.0, alpha: 0.9, deviation: 0.3 }, cond(n)).unwrap()),
             ("real_ls", ls::real_ls(ls::RealProblemParameters { n_neighbors: 4, deviation: 0.3 }, cond(n)).unwrap()),
@@ -213,6 +215,7 @@ pub fn c05_native_whole_runs() {
 fn prescribed_size(name: &str) -> Option<(usize, usize)> {
     Some(match name {
         "real_ga" | "binary_ga" | "real_de" => (8, 8),
+        "real_ga[odd]" => (7, 7),
         "real_pso" | "real_bh" => (6, 6),
         "real_fa" => (5, 5),
         "real_mu_plus_lambda_es" => (4, 4),
